@@ -124,7 +124,8 @@ type Conn struct {
 
 	Visibility map[imap.MailboxID]imap.MailboxVisibility
 
-	closed bool
+	closed     bool
+	noLiterals bool
 }
 
 func New(usernames []string, password string) *Conn {
@@ -233,7 +234,7 @@ func (c *Conn) GetMessageLiteral(ctx context.Context, id imap.MessageID) ([]byte
 	defer c.mu.Unlock()
 	c.Calls = append(c.Calls, "GetMessageLiteral "+string(id))
 	m, ok := c.Messages[id]
-	if !ok {
+	if !ok || c.noLiterals {
 		return nil, errors.New("no such message")
 	}
 	return m.Literal, nil
@@ -637,4 +638,11 @@ func (c *Conn) Canon() string {
 	}
 	sort.Strings(fk)
 	return fmt.Sprintf("mb%v ms%v echo%v faults%v", mb, ms, ec, fk)
+}
+
+// ForgetLiterals makes GetMessageLiteral fail for every message from now on (the remote model keeps ids and flags).
+func (c *Conn) ForgetLiterals() {
+	c.mu.Lock()
+	defer c.mu.Unlock()
+	c.noLiterals = true
 }
